@@ -95,6 +95,10 @@ def incarnation_scenarios(rng, ctx, per_config):
                         if end in ("finish", "finish-delete"):
                             a_ops += [phase(A, rng.choice([2, 3])), inf(A)]
                         if end in ("delete", "finish-delete"):
+                            if end == "delete" and rng.random() < 0.5:
+                                # graceful deletion: the object stays for a while with a deletion timestamp - the pod is still alive
+                                a_ops += [{"op": "pod_terminating", "ns": "ns1", "name": name}, inf(A), {"op": "event", "n": 0},
+                                          {"op": "resync", "ip": "@a0"}, {"op": "sync_pod", "ns": "ns1", "name": name}]
                             a_ops += [dele(A)]
                         a_tail = [{"op": "event", "n": 0}, {"op": "resync", "ip": "@a0"}, {"op": "resync", "ip": "@a1"},
                                   {"op": "resync_item", "ip": "@a0"}, {"op": "resync_item", "ip": "@a1"},
@@ -164,6 +168,23 @@ def fixed_scenarios():
             hs.append(("binding-fails-then-retry-%d-p%d" % (ri, policy), {"provider": False, "nodes": NODES, "conf": conf_text([POOL_A]), "ops": base + [
                 put(Q), inf(Q), flt(Q, ["node1", "node2"]), dict(bnd(Q, "node1"), fbind=1), bnd(Q, "node1"), inf(Q), bnd(Q, "node1"),
                 phase(Q, 1), inf(Q), {"op": "resync", "ip": "@a0"}]}))
+    # a pod in graceful termination (deletion timestamp set, object still there) keeps its IP: events, resync, API release, a
+    # contender asking for the very address
+    for policy in (0, 1):
+        T = mkpod("web-0", "uT", policy=policy, ranges=[["10.100.0.3"]])
+        C1 = mkpod("other-0", "uO", "bare", "", 0, [["10.100.0.3"]])
+        hs.append(("terminating-pod-keeps-its-ip-p%d" % policy, {"provider": policy == 1, "nodes": NODES, "conf": conf_text([POOL_A]), "ops": base + [
+            put(T), inf(T), flt(T, ["node1"]), bnd(T), inf(T), phase(T, 1), inf(T), {"op": "pod_terminating", "ns": "ns1", "name": "web-0"}, inf(T),
+            {"op": "event", "n": 0}, {"op": "resync", "ip": "@a0"}, {"op": "api_release", "ip": "@a0", "key": "@ka0"},
+            put(C1), inf(C1), flt(C1, ["node1"]), bnd(C1, "node1"), dele(T), inf(T), {"op": "event", "n": 0}]}))
+    # a pod created from the manifest of a running floating-IP pod: its arguments annotation already holds ipinfos
+    W0 = mkpod("web-0", "uW0", ranges=[["10.100.0.3"]])
+    W1 = dict(mkpod("web-1", "uW1"), PreIps=["10.100.0.3"])
+    W2 = dict(mkpod("web-2", "uW2", ranges=[["10.100.0.6~10.100.0.7"]]), PreIps=["10.100.0.3", "10.100.0.4"])
+    hs.append(("copied-manifest-with-ipinfos", {"provider": False, "nodes": NODES, "conf": conf_text([POOL_A]), "ops": [
+        {"op": "sts_set", "ns": "ns1", "name": "web", "replicas": 3}, put(W0), inf(W0), flt(W0, ["node1"]), bnd(W0), inf(W0), phase(W0, 1), inf(W0),
+        put(W1), inf(W1), flt(W1, ["node1"]), bnd(W1, "node1"), inf(W1), phase(W1, 1), inf(W1),
+        put(W2), inf(W2), flt(W2, ["node1"]), bnd(W2, "node1"), inf(W2), {"op": "resync", "ip": "@a0"}, {"op": "sync_pod", "ns": "ns1", "name": "web-1"}]}))
     # F2: stale informer while B is bound
     A2, B2 = mkpod("web-0", "uA"), mkpod("web-0", "uB")
     hs.append(("F2-stale-lister-bind", {"provider": False, "nodes": NODES, "conf": conf_text([POOL_A]), "ops": base + [
@@ -248,8 +269,8 @@ def wf_prefix(hist, obs):
             break
         if k == "pod_put":
             u = op["pod"]["Uid"]
-            if u in seen_uids or not u:
-                break
+            if u in seen_uids or not u or op["pod"].get("PreIps"):
+                break              # (wf_env: a created pod carries no ipinfos yet)
             seen_uids.add(u)
         d = st.get("dump")
         if not d:
@@ -268,7 +289,7 @@ def wf_prefix(hist, obs):
 
 
 def run(ctx, focus, theorems, refuted, monitors, nrandom=(150, 1500), per_config=(1, 4), extra_scenarios=(), wf_only=False,
-        gen_kw=None, ext=False, incarnations=True, fixed=True):
+        gen_kw=None, ext=False, incarnations=True, fixed=True, all_steps=False):
     """monitors(hist, obs, nwf, keys) -> list of (coq bool expr, step index, kind, tags)"""
     ctx.cov["trusted_base"] = vf.TRUSTED_COMMON + [
         "harness fakes: client-go fake clientsets as the API server (pods/binding: NotFound if the pod is gone, conflict on another "
@@ -317,7 +338,8 @@ def run(ctx, focus, theorems, refuted, monitors, nrandom=(150, 1500), per_config
         ctx.dist("modelled-steps", nsteps)
         corr.append("(%s %s %s %s %s)" % ({3: "chk_phist3", True: "chk_phist2", False: "chk_phist"}[ext], cbool(h["provider"]), cnodes(h["nodes"]),
                                           conf_trees(h["conf"]), term))
-        nwf = wf_prefix(h, o)
+        # (all_steps: the monitors state the property itself, not a theorem over wf histories - evaluate them on every step)
+        nwf = len(o.get("steps") or []) if all_steps else wf_prefix(h, o)
         for e, si, kind, tags in monitors(h, o, nwf, keys_term(h)):
             mons.append(e); monmeta.append((hi, si, kind, tags))
         if len(ctx.cov["samples"]) < 3 and labels[hi].startswith("random"):
@@ -521,6 +543,23 @@ def pool_scenarios(rng, ctx, n):
                 {"op": "dp_set", "ns": "ns1", "name": "job", "replicas": 3}, {"op": "dp_set", "ns": "ns1", "name": "api", "replicas": 3},
                 {"op": "api_pool", "name": "p1", "size": size, "prealloc": True}, {"op": "pool_set", "name": "p1", "size": size},
                 put(f1), inf(f1), dict(flt(f1), fstore=k), flt(f1), put(f2), inf(f2), flt(f2), bnd(f1, "node1"), bnd(f2, "node1")]}))
+    # two Filter requests for pods of DIFFERENT deployments sharing the sized pool, the first stopped between counting and
+    # allocating: the pool is one below its size (or has room for both)
+    for size in (1, 2, 3):
+        for held in (0, 1, 2):
+            if held > size:
+                continue
+            ops = [{"op": "dp_set", "ns": "ns1", "name": "job", "replicas": 3}, {"op": "dp_set", "ns": "ns1", "name": "api", "replicas": 3},
+                   {"op": "pool_set", "name": "p1", "size": size}]
+            for j in range(held):
+                q0 = mkpod("job-7f9c6d-h%d" % j, "h%d%d%d" % (size, held, j), "dp", "job", 0, pool="p1")
+                ops += [put(q0), inf(q0), flt(q0), bnd(q0, "node1")]
+            qa = mkpod("job-7f9c6d-ra", "ra%d%d" % (size, held), "dp", "job", 0, pool="p1")
+            qb = mkpod("api-7f9c6d-rb", "rb%d%d" % (size, held), "dp", "api", 0, pool="p1")
+            ops += [put(qa), inf(qa), put(qb), inf(qb),
+                    {"op": "filter_race", "ns": "ns1", "pods": [qa["Name"], qb["Name"]], "nodes": ["node1", "node2", "node3"]},
+                    bnd(qa, "node1"), bnd(qb, "node1")]
+            hs.append(("two-filters-race-for-the-pool:%d:%d" % (size, held), {"provider": False, "nodes": NODES, "conf": conf, "ops": ops}))
     # K2, deterministic
     p1 = mkpod("job-7f9c6d-k1", "k1", "dp", "job", 0, pool="p1")
     p2 = mkpod("job-7f9c6d-k2", "k2", "dp", "job", 0, pool="p1")
@@ -546,7 +585,7 @@ def mon_c07(h, o, nwf, keys):
                 sizes.pop(op["name"], None)
             else:
                 sizes[op["name"]] = op["size"]
-        if prev is not None and k in ("filter", "bind", "api_pool", "pool_race", "event", "resync", "api_release"):
+        if prev is not None and k in ("filter", "filter_race", "bind", "api_pool", "pool_race", "event", "resync", "api_release"):
             for name in sorted(set(list(sizes) + ([op["name"]] if k in ("api_pool", "pool_race") else []))):
                 size = op["size"] if (k in ("api_pool", "pool_race") and op["name"] == name) else sizes.get(name)
                 if k == "pool_race" and sizes.get(name) is not None:
@@ -617,8 +656,8 @@ def mon_c02(h, o, nwf, keys):
         k = op["op"]
         if k == "filter":
             approved = {(op["ns"], op["name"]): (st.get("nodes") or [])} if st.get("res") == "ok" else {}
-        elif k not in ("informer", "bind"):
-            approved = {}
+        elif k not in ("informer", "bind", "restart"):
+            approved = {}            # (a restart of galaxy-ipam between the scheduler's filter and bind calls changes nothing for the pod)
         if prev is not None and k == "bind" and st.get("res") == "ok":
             sp = lister_spec(prev, specs, op["ns"], op["name"])
             if sp is not None and sp["Kind"] == "dp" and eff_policy(sp) != 0 and not sp.get("Ranges") and \
@@ -722,6 +761,9 @@ def sticky_scenarios(rng, ctx, n):
                 # approved a node all the same - then with the IP it was promised; the scheduler filters and binds again
                 ops += [put(p), inf(p), dict(flt(p, cand), fstore=rng.choice([0, 1])), bnd(p, "@approved:0"), flt(p, cand),
                         bnd(p, "@approved:%d" % rng.randrange(3))]
+            elif rng.random() < 0.2:
+                # galaxy-ipam restarts between the scheduler's filter and bind calls: what Filter handed over is in the store
+                ops += [put(p), inf(p), flt(p, cand), {"op": "restart"}, bnd(p, "@approved:%d" % rng.randrange(3))]
             else:
                 ops += [put(p), inf(p), flt(p, cand), bnd(p, "@approved:%d" % rng.randrange(3))]
             if old is not None and not surge and late:
@@ -858,6 +900,18 @@ def mon_c03(h, o, nwf, keys):
                     keep = r is not None and idx.isdigit() and int(idx) < r
                 if keep:
                     out.append(("false", si, "release_only_when_licensed(%s)" % ("never_kept" if pol == 2 else "immutable_kept_sts"), []))
+            if k == "event" and ev_uid in byuid and byuid[ev_uid]["Kind"] == "dp" and eff_policy(byuid[ev_uid]) == 1 and \
+                    not byuid[ev_uid].get("Pool") and not any(c[2] for c in st.get("calls") or []) and \
+                    all(c[3] for c in st.get("cloudcalls") or []):
+                # an immutable deployment keeps at most as many IPs as it has replicas: when a pod's event is handled while the app
+                # holds MORE (its pods' IPs plus the reserved ones), that pod's IP is released, not added to the reserve
+                spd = byuid[ev_uid]
+                key, pfx = pod_key(spd), "dp_%s_%s_" % (spd["Ns"], spd["App"])
+                mine = [e for e in prev["alloc"] if e[1] == key and e[4] in ("", ev_uid)]
+                holds = len([e for e in prev["alloc"] if e[1].startswith(pfx)])
+                r = dps.get((spd["Ns"], spd["App"]))
+                if mine and r is not None and holds > r and len([e for e in prev["alloc"] if e[1] == key]) == len(mine):
+                    out.append((lit(all(e[0] not in after for e in mine)), si, "immutable_dp_over_replicas_releases", []))
             if k == "event" and ev_uid in byuid and eff_policy(byuid[ev_uid]) == 0:
                 key = pod_key(byuid[ev_uid])
                 mine = [e for e in prev["alloc"] if e[1] == key]
